@@ -1,422 +1,202 @@
-(* C05 facts: loads(dumps(v)) = v for a fragment of the supported grammar, by structural induction. *)
-From Skv Require Import CodecGuards CodecWfFacts PyValInd.
+(* C05 facts, part 3: decidable guards and the packaged theorems. *)
+From Skv Require Import PyStrFacts CodecGuards CodecWfFacts PyValInd NodeInd TreeIds GraphAudit ConstructFacts.
 From Coq Require Import Lia.
+From Skv Require Import CodecTreeFacts CodecShareFacts PyValEqFacts.
 
-Definition key (i : Z) : hkey := HNum (2 * i).
+(* the objects of a value: the value, its sub-values, and the type objects of its dict keys *)
+Definition kt_objs (D : denv) (l : list (dkey * pval)) : list pval :=
+  flat_map (fun kv => match ktv D (fst kv) with Some tv => [tv] | None => [] end) l.
+Fixpoint objs (D : denv) (v : pval) {struct v} : list pval :=
+  v :: match v with
+       | PSeq _ _ _ _ _ l => flat_map (fun x => objs D x) l
+       | PDict _ _ _ l => kt_objs D l ++ flat_map (fun kv => objs D (snd kv)) l
+       | PDefDict _ _ _ f l => kt_objs D l ++ objs D f ++ flat_map (fun kv => objs D (snd kv)) l
+       | POpFunc _ _ a => objs D a
+       | _ => []
+       end.
 
-(* every __id__ written in a schema *)
-Fixpoint jids (j : json) : list Z :=
-  match j with
-  | JObj kv =>
-      (fix go (f : list (pstr * json)) : list Z :=
-         match f with
-         | [] => []
-         | (k, x) :: f' => (if pstr_eqb k (s "__id__") then match x with JInt z => [z] | _ => jids x end else jids x) ++ go f'
-         end) kv
-  | JArr xs => (fix go (l : list json) : list Z := match l with [] => [] | x :: l' => jids x ++ go l' end) xs
-  | _ => []
+(* same label => same object; labels of the value's objects lie strictly between 0 and the allocator's base *)
+Definition objs_wf (base : Z) (U : list pval) : bool :=
+  forallb (fun a => (0 <? pid a)%Z && (pid a <? base)%Z
+                    && forallb (fun b => negb (Z.eqb (pid a) (pid b)) || pval_eqb a b) U) U.
+
+Definition keyb (F : cfacts) (D : denv) (k : dkey) : bool :=
+  match k_val k with
+  | Some sc =>
+      match coerce_key (k_mod k) (k_cls k) (key_text sc) with Ok sc' => scalar_eqb sc' sc | Raise _ => false end
+      && match ktv D k with Some _ => true | None => false end
+      && resolvable F (k_mod k) (k_cls k)
+  | None => false
   end.
-Definition jids_list (l : list json) : list Z := flat_map jids l.
-Lemma jids_arr l : jids (JArr l) = jids_list l.
-Proof. cbn [jids]. unfold jids_list. induction l as [|x l IH]; [reflexivity|]. cbn [flat_map]. rewrite <- IH. reflexivity. Qed.
+Definition itemsb (F : cfacts) (D : denv) (l : list (dkey * pval)) : bool :=
+  forallb (keyb F D) (map fst l) && nodup_texts (map (fun kv => ktext (fst kv)) l)
+  && distinct_from [] (map fst l) && forallb (fun kv => negb (is_prop (snd kv))) l.
+Definition dict_clsb (mo c : pstr) : bool :=
+  (pstr_eqb mo (s "builtins") && pstr_eqb c (s "dict")) || (pstr_eqb mo (s "collections") && pstr_eqb c (s "OrderedDict")).
+Definition seq_clsb (q : seqkind) (c : pstr) : bool :=
+  match q with QList => pstr_eqb c (s "list") | QTuple => pstr_eqb c (s "tuple") | QSet => pstr_eqb c (s "set") end.
 
-Definition zmem (h : hkey) (l : list Z) : bool := existsb (fun i => hkey_eqb h (key i)) l.
+Definition opfunc_okb (c : pstr) (attrs : pval) : bool :=
+  match attrs with
+  | PSeq _ _ _ _ _ (PScalar _ (SStr _) :: _) => true
+  | PSeq _ _ _ _ _ (_ :: _) => pstr_eqb c (s "itemgetter")
+  | _ => false
+  end.
 
-(* the fragment covered by the induction: JSON scalars, nested list / tuple / set of exact builtin class,
-   slices, function and type names *)
-Section Frag.
-  Variable F : cfacts.
-  Fixpoint frag (v : pval) {struct v} : bool :=
-    let fix all (l : list pval) {struct l} : bool := match l with [] => true | x :: l' => frag x && all l' end in
-    match v with
-    | PScalar _ sc => scalar_rt_ok sc
-    | PSeq q _ m c nt l =>
-        negb nt && all l
-        && pstr_eqb m (s "builtins")
-        && match q with QList => pstr_eqb c (s "list") | QTuple => pstr_eqb c (s "tuple") | QSet => pstr_eqb c (s "set") end
-    | PSlice _ a b c => bound_supported a && bound_supported b && bound_supported c
-    | PFunc _ m c | PType _ m c => resolvable F m c
-    | _ => false
-    end.
-End Frag.
-
-Fixpoint need (v : pval) : nat :=
+(* the proved fragment of the property's grammar *)
+Fixpoint fragb (F : cfacts) (D : denv) (v : pval) {struct v} : bool :=
   match v with
-  | PSeq _ _ _ _ _ l => S (fold_right (fun x acc => Nat.max (need x) acc) O l)
-  | _ => 1
+  | PScalar _ sc => scalar_rt_ok sc
+  | PSeq q _ mo c nt l => pstr_eqb mo (s "builtins") && negb nt && seq_clsb q c && forallb (fun x => fragb F D x) l
+  | PDict _ mo c l => dict_clsb mo c && itemsb F D l && forallb (fun kv => fragb F D (snd kv)) l
+  | PDefDict _ mo c f l =>
+      pstr_eqb mo (s "collections") && pstr_eqb c (s "defaultdict") && itemsb F D l && fragb F D f
+      && forallb (fun kv => fragb F D (snd kv)) l
+  | PSlice _ a b c => bound_supported a && bound_supported b && bound_supported c
+  | PFunc _ mo c | PType _ mo c => resolvable F mo c
+  | POpFunc _ c a => resolvable F (s "operator") c && opfunc_okb c a && fragb F D a
+  | _ => false
   end.
 
-(* the facts about classes are consistent with what the three builtin sequence names denote *)
-Definition facts_sane (F : cfacts) : bool :=
-  negb (mem (s "builtins.tuple") (f_namedtuples F))
-  && negb (mem (s "builtins.list") (f_missing F)) && negb (mem (s "builtins.tuple") (f_missing F))
-  && negb (mem (s "builtins.set") (f_missing F)).
-
-(* loaders of the fragment and the classes get_tree must select for them *)
-Definition frag_loaders : list (pstr * pstr) :=
-  [(s "JsonNode", s "_general.JsonNode"); (s "ListNode", s "_general.ListNode"); (s "TupleNode", s "_general.TupleNode");
-   (s "SetNode", s "_general.SetNode"); (s "SliceNode", s "_general.SliceNode"); (s "FunctionNode", s "_general.FunctionNode");
-   (s "TypeNode", s "_general.TypeNode")].
-Definition reg_ok (reg : registry) (cur : Z) : bool :=
-  forallb (fun lt => match lookup reg cur (fst lt) (pkey cur) with Some t => pstr_eqb t (snd lt) | None => false end) frag_loaders.
-
-Lemma pstr_eqb_refl t : pstr_eqb t t = true.
-Proof. induction t as [|c t IH]; cbn; [reflexivity|]. rewrite N.eqb_refl. exact IH. Qed.
-Lemma pstr_eqb_true a b : pstr_eqb a b = true -> a = b.
+Lemma nodup_texts_NoDup l : nodup_texts l = true -> NoDup l.
 Proof.
-  revert b. induction a as [|x a IH]; destruct b as [|y b]; cbn; try discriminate; [reflexivity|].
-  intros H. apply andb_prop in H. destruct H as [H1 H2]. apply N.eqb_eq in H1. subst. f_equal. auto.
+  induction l as [|x l IH]; cbn [nodup_texts]; intros H; [constructor|]. apply andb_prop in H. destruct H as [H1 H2].
+  constructor; [|auto]. intro Hin. apply mem_In in Hin. rewrite Hin in H1. discriminate.
 Qed.
-Lemma scalar_eqb_true a b : scalar_eqb a b = true -> a = b.
-Proof.
-  destruct a, b; cbn; try discriminate; intros H; try reflexivity.
-  - f_equal. apply Bool.eqb_prop. exact H.
-  - f_equal. apply Z.eqb_eq. exact H.
-  - f_equal. apply pstr_eqb_true. exact H.
-  - f_equal. apply pstr_eqb_true. exact H.
-Qed.
-Lemma key_div i : (2 * i / 2 = i)%Z.
-Proof. rewrite Z.mul_comm. apply Z.div_mul. lia. Qed.
 
-Section RT.
+Section Pack.
   Variable D : denv.
   Variable F : cfacts.
-  Variable E : env.
-  Variable C : cenv.
-  Variable files : list (hkey * json).
-  Hypothesis HC : c_namedtuples C = f_namedtuples F /\ c_missing C = f_missing F.
-  Hypothesis Hsane : facts_sane F = true.
-  Hypothesis Hreg : reg_ok (e_reg E) (e_cur E) = true.
-  Let proto : json := JInt (e_cur E).
+  Variable U : list pval.
+  Let Objs := fun w => In w U.
 
-  Lemma disp l tag : In (l, tag) frag_loaders -> dispatch (e_reg E) (e_cur E) (JStr l) proto = Ok (Some tag).
+  Lemma itemsb_ok l : itemsb F D l = true -> incl (kt_objs D l) U -> items_ok D F Objs l.
   Proof.
-    intros Hin. unfold dispatch, proto. cbn [jhash bind]. f_equal. f_equal.
-    unfold reg_ok in Hreg. rewrite forallb_forall in Hreg. specialize (Hreg _ Hin). cbn [fst snd] in Hreg.
-    unfold pkey in Hreg. destruct (lookup (e_reg E) (e_cur E) l (HNum (2 * e_cur E))) as [t|]; [|discriminate].
-    apply pstr_eqb_true in Hreg. subst. reflexivity.
+    unfold itemsb. intros H Hin. apply andb_prop in H. destruct H as [H H4]. apply andb_prop in H. destruct H as [H H3].
+    apply andb_prop in H. destruct H as [H1 H2]. unfold items_ok. repeat split.
+    - rewrite forallb_forall in H1. apply Forall_forall. intros k Hk. specialize (H1 k Hk). unfold keyb in H1.
+      destruct (k_val k) as [sc|] eqn:Ek; [|discriminate]. apply andb_prop in H1. destruct H1 as [H1 Hr]. apply andb_prop in H1. destruct H1 as [Hc Ht].
+      destruct (coerce_key _ _ _) as [sc'|] eqn:Ec; [|discriminate]. apply scalar_eqb_true in Hc. subst sc'.
+      destruct (ktv D k) as [tv|] eqn:Etv; [|discriminate]. exists sc, tv. repeat split; try assumption.
+      apply Hin. unfold kt_objs. apply in_map_iff in Hk. destruct Hk as [kv [<- Hkv]]. apply in_flat_map. exists kv. split; [exact Hkv|].
+      rewrite Etv. left. reflexivity.
+    - apply nodup_texts_NoDup. exact H2.
+    - exact H3.
+    - rewrite forallb_forall in H4. apply Forall_forall. intros kv Hkv. specialize (H4 kv Hkv). apply negb_true_iff in H4. exact H4.
   Qed.
 
-  Lemma jget_id c mo l fields id : dget (s "__id__") fields = None ->
-    jget (node_state c mo l fields id) (s "__id__") = Ok (JInt id).
+  Lemma incl_flat {A} (f : A -> list pval) l x : In x l -> incl (flat_map f l) U -> incl (f x) U.
+  Proof. intros Hx H y Hy. apply H. apply in_flat_map. exists x. auto. Qed.
+
+  Lemma fragb_vok : forall v, fragb F D v = true -> incl (objs D v) U -> vok D F Objs v.
   Proof.
-    intros Hf. unfold node_state. cbn [jget].
-    match goal with |- context [dget ?k (?a :: ?b :: ?c0 :: ?r)] => change (dget k (a :: b :: c0 :: r)) with (dget k r) end.
-    rewrite (dget_app_none _ _ _ Hf). reflexivity.
-  Qed.
-
-  Definition mkh (sl : slot) (k : kind) (tag : pstr) (id : Z) (c mo : pstr) (aux : json) : hdr :=
-    {| h_slot := sl; h_kind := k; h_tag := tag; h_id := Some (key id); h_extra := []; h_class := JStr c; h_module := JStr mo; h_aux := aux |}.
-
-  Lemma init_eq sl k tag m c mo l fields id : dget (s "__id__") fields = None -> id <> 0%Z ->
-    node_init sl k tag [] true m (node_state c mo l fields id) JNull = Ok (mkh sl k tag id c mo JNull, key id :: m).
-  Proof.
-    intros Hf Hid. unfold node_init. rewrite (jget_id _ _ _ _ _ Hf).
-    change (jindex (node_state c mo l fields id) (GetTree.K "__class__")) with (Ok (A:=json) (JStr c)).
-    change (jindex (node_state c mo l fields id) (GetTree.K "__module__")) with (Ok (A:=json) (JStr mo)).
-    cbn [bind jtruthy]. replace (id =? 0)%Z with false by (symmetry; apply Z.eqb_neq; exact Hid).
-    cbn [negb andb jhash bind]. reflexivity.
-  Qed.
-
-  Lemma gt_step f sl m c mo l fields id tag k :
-    dget (s "__id__") fields = None -> memo_mem (key id) m = false ->
-    In (l, tag) frag_loaders -> kind_of_class tag = Some k ->
-    get_tree (S f) E proto [] sl m (node_state c mo l fields id)
-    = build E (get_tree f E proto) sl [] tag k m (node_state c mo l fields id).
-  Proof.
-    intros Hf Hm Hl Hk. cbn [get_tree]. rewrite (jget_id _ _ _ _ _ Hf). cbn [bind jhash].
-    change (HNum (2 * id)) with (key id). rewrite Hm.
-    change (jindex (node_state c mo l fields id) (GetTree.K "__loader__")) with (Ok (A:=json) (JStr l)).
-    cbn [bind]. rewrite (disp _ _ Hl). cbn [bind]. rewrite Hk. reflexivity.
-  Qed.
-
-  Definition isnode (n : node) : bool := match n with Node _ _ => true | _ => false end.
-
-  Lemma zmem_false i l : ~ In i l -> zmem (key i) l = false.
-  Proof.
-    induction l as [|x l IH]; intros H; [reflexivity|]. cbn [zmem existsb]. unfold zmem in IH. rewrite IH by (intro; apply H; right; assumption).
-    rewrite orb_false_r. cbn [key hkey_eqb]. apply Z.eqb_neq. intro Heq. apply H. left. lia.
-  Qed.
-  Lemma zmem_app h a b : zmem h (a ++ b) = zmem h a || zmem h b.
-  Proof. unfold zmem. apply existsb_app. Qed.
-
-  Definition Q (v : pval) : Prop :=
-    forall st j st', get_state D v st = Ok (j, st') ->
-      d_late st' = d_late st /\
-      forall fuel m sl, (need v <= fuel)%nat -> NoDup (jids j) ->
-        (forall i, In i (jids j) -> i <> 0%Z /\ memo_mem (key i) m = false) ->
-        exists n m', get_tree fuel E proto [] sl m j = Ok (n, m') /\ isnode n = true
-          /\ (forall h, memo_mem h m' = memo_mem h m || zmem h (jids j))
-          /\ (forall root cf path, (need v <= cf)%nat -> (forall i, In i (jids j) -> memo_mem (key i) path = false) ->
-                construct_val C files root cf path n = Ok v).
-
-  Lemma NoDup_app_inv {A} (a b : list A) : NoDup (a ++ b) -> NoDup a /\ NoDup b /\ (forall x, In x a -> ~ In x b).
-  Proof.
-    induction a as [|x a IH]; cbn [app]; intros H.
-    - split; [constructor|]. split; [assumption|]. intros ? [].
-    - inversion H as [|? ? Hx Hr]; subst. destruct (IH Hr) as [Ha [Hb Hd]]. split.
-      + constructor; [|assumption]. intro Hi. apply Hx. apply in_or_app. left. assumption.
-      + split; [assumption|]. intros y [<-|Hy]; [|auto]. intro Hi. apply Hx. apply in_or_app. right. assumption.
-  Qed.
-
-  Lemma states_rt l : Forall (fun x => frag F x = true -> Q x) l -> forallb (frag F) l = true ->
-    forall st js st', states_of (fun x s0 => get_state D x s0) l st = Ok (js, st') ->
-      d_late st' = d_late st /\
-      forall fuel m name, (forall x, In x l -> (need x <= fuel)%nat) -> NoDup (jids_list js) ->
-        (forall i, In i (jids_list js) -> i <> 0%Z /\ memo_mem (key i) m = false) ->
-        exists ns m', sub_list (get_tree fuel E proto) [] name m js = Ok (ns, m') /\ forallb isnode ns = true
-          /\ length ns = length l
-          /\ (forall h, memo_mem h m' = memo_mem h m || zmem h (jids_list js))
-          /\ (forall root cf path, (forall x, In x l -> (need x <= cf)%nat) -> (forall i, In i (jids_list js) -> memo_mem (key i) path = false) ->
-                mapM (construct_val C files root cf path) ns = Ok l).
-  Proof.
-    induction 1 as [|x l Hx Hl IH]; intros Hf st js st' H; cbn [states_of] in H.
-    - injection H as <- <-. split; [reflexivity|]. intros fuel m name _ _ _. exists [], m. cbn [sub_list]. split; [reflexivity|].
-      split; [reflexivity|]. split; [reflexivity|]. split; [intros; cbn; rewrite orb_false_r; reflexivity|]. intros. reflexivity.
-    - cbn [forallb] in Hf. apply andb_prop in Hf. destruct Hf as [Hfx Hfl].
-      inv_bind H. destruct (Hx Hfx _ _ _ E0) as [Hl1 Hx1]. destruct (IH Hfl _ _ _ E1) as [Hl2 IH1].
-      split; [congruence|]. intros fuel m name Hn Hnd Hfresh. cbn [jids_list flat_map] in Hnd, Hfresh.
-      destruct (NoDup_app_inv _ _ Hnd) as [Hnd1 [Hnd2 Hdis]].
-      destruct (Hx1 fuel m (SElem name) (Hn _ (or_introl eq_refl)) Hnd1 (fun i Hi => Hfresh i (in_or_app _ _ _ (or_introl Hi))))
-        as [n [m1 [Hg [Hnode [Hm1 Hc1]]]]].
-      destruct (IH1 fuel m1 name (fun y Hy => Hn y (or_intror Hy)) Hnd2) as [ns [m2 [Hg2 [Hnodes [Hlen [Hm2 Hc2]]]]]].
-      { intros i Hi. split; [apply (Hfresh i); apply in_or_app; right; exact Hi|].
-        rewrite Hm1. rewrite (proj2 (Hfresh i (in_or_app _ _ _ (or_intror Hi)))). cbn [orb].
-        apply zmem_false. intro Hin. exact (Hdis _ Hin Hi). }
-      exists (n :: ns), m2. cbn [sub_list]. rewrite Hg. cbn [bind]. rewrite Hg2. cbn [bind]. split; [reflexivity|].
-      split; [cbn [forallb]; rewrite Hnode, Hnodes; reflexivity|]. split; [cbn [length]; congruence|].
-      split.
-      + intros h. rewrite Hm2, Hm1. cbn [jids_list flat_map]. rewrite zmem_app, orb_assoc. reflexivity.
-      + intros root cf path Hcf Hp. cbn [mapM].
-        rewrite (Hc1 root cf path (Hcf _ (or_introl eq_refl)) (fun i Hi => Hp i (in_or_app _ _ _ (or_introl Hi)))). cbn [bind].
-        rewrite (Hc2 root cf path (fun y Hy => Hcf y (or_intror Hy)) (fun i Hi => Hp i (in_or_app _ _ _ (or_intror Hi)))). reflexivity.
-  Qed.
-
-  Lemma frag_all l :
-    (fix all (l : list pval) : bool := match l with [] => true | x :: l' => frag F x && all l' end) l = forallb (frag F) l.
-  Proof. induction l as [|x l IH]; [reflexivity|]. cbn [forallb]. rewrite <- IH. reflexivity. Qed.
-
-  Lemma need_le x l fuel : In x l -> (fold_right (fun x acc => Nat.max (need x) acc) O l <= fuel)%nat -> (need x <= fuel)%nat.
-  Proof.
-    induction l as [|y l IH]; intros Hin Hle; [destruct Hin|]. cbn [fold_right] in Hle. destruct Hin as [->|Hin].
-    - lia.
-    - apply IH; [assumption|lia].
-  Qed.
-
-  (* a leaf state: no child states *)
-  Lemma leaf_tree fuel m sl c mo l fields id tag k :
-    dget (s "__id__") fields = None -> id <> 0%Z -> memo_mem (key id) m = false ->
-    In (l, tag) frag_loaders -> kind_of_class tag = Some k ->
-    forall r, (forall rec, build E rec sl [] tag k m (node_state c mo l fields id) = r) ->
-    get_tree (S fuel) E proto [] sl m (node_state c mo l fields id) = r.
-  Proof. intros Hf Hid Hm Hl Hk r Hr. rewrite (gt_step _ _ _ _ _ _ _ _ _ _ Hf Hm Hl Hk). apply Hr. Qed.
-
-  Lemma memo_cons h i m : memo_mem h (key i :: m) = memo_mem h m || zmem h [i].
-  Proof. cbn [memo_mem zmem existsb]. rewrite orb_false_r, orb_comm. reflexivity. Qed.
-
-  Lemma gt_ok h mo c : h_module h = JStr mo -> h_class h = JStr c -> mo <> [] -> c <> [] ->
-    mem (qual mo c) (c_missing C) = false -> gt C h = Ok (mo, c).
-  Proof.
-    intros Hm Hc Hmo Hcn Hmiss. unfold gt. rewrite Hm, Hc. cbn [jstr bind].
-    destruct mo as [|? ?]; [congruence|]. destruct c as [|? ?]; [congruence|]. rewrite Hmiss. reflexivity.
-  Qed.
-
-  Lemma in_last {A} (x : A) l : In x (l ++ [x]).
-  Proof. apply in_or_app. right. left. reflexivity. Qed.
-
-  Theorem frag_rt : forall v, frag F v = true -> Q v.
-  Proof.
-    apply (pval_ind' (fun v => frag F v = true -> Q v)).
-    - (* leaves *)
-      intros v Hl Hfr st j st' H. destruct v; try discriminate Hl; try discriminate Hfr; cbn [get_state] in H.
-      + (* PScalar *)
-        injection H as <- <-. split; [reflexivity|]. intros fuel m sl Hn _ Hfresh.
-        destruct fuel as [|fuel]; [cbn in Hn; lia|].
-        assert (Hj : jids (json_state (json_text sc) id) = [id]) by reflexivity. rewrite Hj in *.
-        destruct (Hfresh id (or_introl eq_refl)) as [Hid Hm].
-        unfold json_state.
-        eexists. eexists. split.
-        * apply leaf_tree with (tag := s "_general.JsonNode") (k := KJson); [reflexivity|exact Hid|exact Hm|cbn; tauto|reflexivity|].
-          intros rec. unfold build. rewrite init_eq by (try reflexivity; exact Hid). cbn [bind]. reflexivity.
-        * split; [reflexivity|]. split; [intros h; apply memo_cons|].
-          intros root cf path Hcf Hp. destruct cf as [|cf]; [cbn in Hcf; lia|].
-          cbn [construct_val]; unfold set_aux, mkh; cbn [h_id]. rewrite (Hp id (or_introl eq_refl)).
-          unfold cbody, nid, key; cbn [h_kind h_aux h_id]. rewrite key_div.
-          cbn [frag] in Hfr. unfold scalar_rt_ok in Hfr. destruct (json_parse (json_text sc)) as [sc'|]; [|discriminate].
-          apply scalar_eqb_true in Hfr. subst. reflexivity.
-      + (* PSlice *)
-        cbn [frag] in Hfr. apply andb_prop in Hfr. destruct Hfr as [Hfr Hc0]. apply andb_prop in Hfr. destruct Hfr as [Ha Hb].
-        assert (Hsb : forall x st0, bound_supported x = true -> exists jx, sbound_json x st0 = Ok (jx, st0) /\ raw_bound jx = Ok x /\ jids jx = []).
-        { intros x st0 Hx. destruct x as [[| | | |]|]; try discriminate Hx; eexists; (split; [reflexivity|split; reflexivity]). }
-        destruct (Hsb a st Ha) as [ja [Ea [Ra Ia]]]. rewrite Ea in H. cbn [bind] in H.
-        destruct (Hsb b st Hb) as [jb [Eb [Rb Ib]]]. rewrite Eb in H. cbn [bind] in H.
-        destruct (Hsb c st Hc0) as [jc [Ec [Rc Ic]]]. rewrite Ec in H. cbn [bind] in H.
-        injection H as <- <-. split; [reflexivity|].
-        match goal with |- context [jids ?j0] =>
-          assert (Hj : jids j0 = [id]) by (change (jids j0) with ((jids ja ++ jids jb ++ jids jc ++ []) ++ [id]); rewrite Ia, Ib, Ic; reflexivity);
-          rewrite Hj; clear Hj end.
-        intros fuel m sl Hn _ Hfresh.
-        destruct fuel as [|fuel]; [cbn in Hn; lia|].
-        destruct (Hfresh id (or_introl eq_refl)) as [Hid Hm].
-        eexists. eexists. split.
-        * apply leaf_tree with (tag := s "_general.SliceNode") (k := KSlice); [reflexivity|exact Hid|exact Hm|cbn; tauto|reflexivity|].
-          intros rec. unfold build. rewrite init_eq by (try reflexivity; exact Hid). cbn [bind]. reflexivity.
-        * split; [reflexivity|]. split; [intros h; apply memo_cons|].
-          intros root cf path Hcf Hp. destruct cf as [|cf]; [cbn in Hcf; lia|].
-          cbn [construct_val]; unfold set_aux, mkh; cbn [h_id]. rewrite (Hp id (or_introl eq_refl)).
-          unfold cbody, nid, key; cbn [h_kind h_aux h_id]. rewrite Ra; cbn [bind]; rewrite Rb; cbn [bind]; rewrite Rc; cbn [bind]. rewrite key_div. reflexivity.
-      + (* PFunc *)
-        injection H as <- <-. split; [reflexivity|].
-        match goal with |- context [jids ?j0] => assert (Hj : jids j0 = [id]) by reflexivity; rewrite Hj; clear Hj end.
-        intros fuel m0 sl Hn _ Hfresh.
-        destruct fuel as [|fuel]; [cbn in Hn; lia|].
-        destruct (Hfresh id (or_introl eq_refl)) as [Hid Hm].
-        eexists. eexists. split.
-        * apply leaf_tree with (tag := s "_general.FunctionNode") (k := KFunction); [reflexivity|exact Hid|exact Hm|cbn; tauto|reflexivity|].
-          intros rec. unfold build. rewrite init_eq by (try reflexivity; exact Hid). cbn [bind]. reflexivity.
-        * split; [reflexivity|]. split; [intros h; apply memo_cons|].
-          intros root cf path Hcf Hp. destruct cf as [|cf]; [cbn in Hcf; lia|].
-          cbn [construct_val]; unfold set_aux, mkh; cbn [h_id]. rewrite (Hp id (or_introl eq_refl)).
-          unfold cbody, gt, nid, key; cbn [h_kind h_id h_module h_class jstr bind]. rewrite key_div.
-          cbn [frag] in Hfr. unfold resolvable in Hfr. apply andb_prop in Hfr. destruct Hfr as [Hmiss Hne].
-          destruct HC as [_ HCm]. rewrite HCm. destruct m as [|? ?]; [discriminate|]. destruct c as [|? ?]; [discriminate|].
-          apply negb_true_iff in Hmiss. rewrite Hmiss. reflexivity.
-      + (* PType *)
-        injection H as <- <-. split; [reflexivity|].
-        match goal with |- context [jids ?j0] => assert (Hj : jids j0 = [id]) by reflexivity; rewrite Hj; clear Hj end.
-        intros fuel m0 sl Hn _ Hfresh.
-        destruct fuel as [|fuel]; [cbn in Hn; lia|].
-        destruct (Hfresh id (or_introl eq_refl)) as [Hid Hm]. unfold type_state.
-        eexists. eexists. split.
-        * apply leaf_tree with (tag := s "_general.TypeNode") (k := KType); [reflexivity|exact Hid|exact Hm|cbn; tauto|reflexivity|].
-          intros rec. unfold build. rewrite init_eq by (try reflexivity; exact Hid). cbn [bind]. reflexivity.
-        * split; [reflexivity|]. split; [intros h; apply memo_cons|].
-          intros root cf path Hcf Hp. destruct cf as [|cf]; [cbn in Hcf; lia|].
-          cbn [construct_val]; unfold set_aux, mkh; cbn [h_id]. rewrite (Hp id (or_introl eq_refl)).
-          unfold cbody, gt, nid, key; cbn [h_kind h_id h_module h_class jstr bind]. rewrite key_div.
-          cbn [frag] in Hfr. unfold resolvable in Hfr. apply andb_prop in Hfr. destruct Hfr as [Hmiss Hne].
-          destruct HC as [_ HCm]. rewrite HCm. destruct m as [|? ?]; [discriminate|]. destruct c as [|? ?]; [discriminate|].
-          apply negb_true_iff in Hmiss. rewrite Hmiss. reflexivity.
-    - (* PSeq *)
-      intros q id mo c nt l IH Hfr st j st' H. cbn [get_state] in H. cbn [frag] in Hfr. rewrite frag_all in Hfr.
-      apply andb_prop in Hfr. destruct Hfr as [Hfr Hc]. apply andb_prop in Hfr. destruct Hfr as [Hfr Hmo].
-      apply andb_prop in Hfr. destruct Hfr as [Hnt Hall]. apply pstr_eqb_true in Hmo. subst mo.
-      destruct nt; [discriminate|].
-      inv_bind H. destruct (states_rt l IH Hall _ _ _ E0) as [Hlate HL].
-      split; [exact Hlate|]. 
-      set (ld := match q with QList => CodecDump.K "ListNode" | QTuple => CodecDump.K "TupleNode" | QSet => CodecDump.K "SetNode" end).
-      match goal with |- context [jids ?j0] =>
-        assert (Hj : jids j0 = jids_list l0 ++ [id]) by (rewrite <- jids_arr; destruct q; reflexivity) end.
-      rewrite Hj. clear Hj.
-      intros fuel m sl Hn Hnd Hfresh. destruct fuel as [|fuel]; [cbn in Hn; lia|]. cbn [need] in Hn.
-      destruct (NoDup_app_inv _ _ Hnd) as [Hnd1 [_ Hdis]].
-      destruct (Hfresh id (in_last id _)) as [Hid Hm].
-      set (tagk := match q with QList => (s "_general.ListNode", KList) | QTuple => (s "_general.TupleNode", KTuple) | QSet => (s "_general.SetNode", KSet) end).
-      destruct (HL fuel (key id :: m) (GetTree.K "content") (fun x Hx => need_le x l fuel Hx ltac:(lia)) Hnd1) as [ns [m1 [Hsub [Hnodes [Hlen [Hm1 Hcon]]]]]].
-      { intros i Hi. split; [apply (Hfresh i); apply in_or_app; left; exact Hi|].
-        cbn [memo_mem]. rewrite (proj2 (Hfresh i (in_or_app _ _ _ (or_introl Hi)))), orb_false_r.
-        cbn [key hkey_eqb]. apply Z.eqb_neq. intro Heq. apply (Hdis i Hi). left. lia. }
-      exists (Node (mkh sl (snd tagk) (fst tagk) id c (s "builtins") JNull) (or_empty (GetTree.K "content") LEmptyList ns)), m1.
-      split.
-      + transitivity (build E (get_tree fuel E proto) sl [] (fst tagk) (snd tagk) m (node_state c (s "builtins") ld [(CodecDump.K "content", JArr l0)] id)).
-        { apply (gt_step fuel sl m c (s "builtins") ld [(CodecDump.K "content", JArr l0)] id (fst tagk) (snd tagk));
-            [reflexivity|exact Hm|destruct q; cbn; tauto|destruct q; reflexivity]. }
-        assert (Hb : build E (get_tree fuel E proto) sl [] (fst tagk) (snd tagk) m (node_state c (s "builtins") ld [(CodecDump.K "content", JArr l0)] id)
-                = do (h, m0) <- node_init sl (snd tagk) (fst tagk) [] true m (node_state c (s "builtins") ld [(CodecDump.K "content", JArr l0)] id) JNull;
-                  do (ns, m1) <- sub_list (get_tree fuel E proto) [] (GetTree.K "content") m0 l0;
-                  Ok (Node h (or_empty (GetTree.K "content") LEmptyList ns), m1)).
-        { destruct q; reflexivity. }
-        rewrite Hb, init_eq by (try reflexivity; exact Hid). cbn [bind]. rewrite Hsub. reflexivity.
-      + split; [reflexivity|]. split.
-        * intros h. rewrite Hm1, memo_cons, zmem_app, <- !orb_assoc. f_equal. apply orb_comm.
-        * intros root cf path Hcf Hp. destruct cf as [|cf]; [cbn in Hcf; lia|]. cbn [need] in Hcf.
-          cbn [construct_val]. unfold mkh at 1. cbn [h_id]. rewrite (Hp id (in_last id _)).
-          assert (Hstrip : strip_empty LEmptyList (or_empty (GetTree.K "content") LEmptyList ns) = ns).
-          { destruct ns as [|n1 ns']; [reflexivity|]. cbn [or_empty strip_empty]. cbn [forallb] in Hnodes.
-            destruct n1; try discriminate Hnodes. destruct ns'; reflexivity. }
-          assert (Hmap : mapM (construct_val C files root cf (key id :: path)) ns = Ok l).
-          { apply Hcon; [intros x Hx; apply (need_le x l cf Hx); lia|].
-            intros i Hi. cbn [memo_mem]. rewrite (Hp i (in_or_app _ _ _ (or_introl Hi))), orb_false_r.
-            cbn [key hkey_eqb]. apply Z.eqb_neq. intro Heq. apply (Hdis i Hi). left. lia. }
-          unfold facts_sane in Hsane. apply andb_prop in Hsane. destruct Hsane as [Hs Hs4]. apply andb_prop in Hs. destruct Hs as [Hs Hs3].
-          apply andb_prop in Hs. destruct Hs as [Hs1 Hs2]. apply negb_true_iff in Hs1, Hs2, Hs3, Hs4.
-          destruct HC as [HCn HCm].           assert (Hne : forall t : string, t <> EmptyString -> s t <> []) by (intros [|a0 t0] Ht; [congruence|cbn; discriminate]).
-          destruct q; apply pstr_eqb_true in Hc; subst c; unfold cbody, mkh; cbn [h_kind tagk snd fst].
-          -- erewrite gt_ok; [|reflexivity|reflexivity|apply Hne; discriminate|apply Hne; discriminate|rewrite HCm; exact Hs2].
-             cbn [bind]. rewrite Hstrip, Hmap. cbn [bind]. unfold nid, key; cbn [h_id]. rewrite key_div. reflexivity.
-          -- erewrite gt_ok; [|reflexivity|reflexivity|apply Hne; discriminate|apply Hne; discriminate|rewrite HCm; exact Hs3].
-             cbn [bind]. rewrite Hstrip, Hmap. cbn [bind]. rewrite HCn.
-             change (mem (qual (s "builtins") (s "tuple")) (f_namedtuples F)) with (mem (s "builtins.tuple") (f_namedtuples F)). rewrite Hs1.
-             unfold nid, key; cbn [h_id]. rewrite key_div. reflexivity.
-          -- erewrite gt_ok; [|reflexivity|reflexivity|apply Hne; discriminate|apply Hne; discriminate|rewrite HCm; exact Hs4].
-             cbn [bind]. rewrite Hstrip, Hmap. cbn [bind]. unfold nid, key; cbn [h_id]. rewrite key_div. reflexivity.
+    apply (pval_ind' (fun v => fragb F D v = true -> incl (objs D v) U -> vok D F Objs v)).
+    - intros v Hl Hf Hi. assert (Ho : Objs v) by (unfold Objs; apply Hi; destruct v; cbn [objs]; left; reflexivity).
+      destruct v; try discriminate Hl; cbn [fragb] in Hf; try discriminate Hf; cbn [vok]; (split; [exact Ho|]); try exact Hf.
+      apply andb_prop in Hf. destruct Hf as [Hf H3]. apply andb_prop in Hf. destruct Hf as [H1 H2]. auto.
+    - intros q id mo c nt l IH Hf Hi. cbn [fragb] in Hf. apply andb_prop in Hf. destruct Hf as [Hf Hall]. apply andb_prop in Hf. destruct Hf as [Hf Hc].
+      apply andb_prop in Hf. destruct Hf as [Hmo Hnt]. apply pstr_eqb_eq in Hmo. apply negb_true_iff in Hnt. subst.
+      cbn [vok]. split; [unfold Objs; apply Hi; cbn [objs]; left; reflexivity|]. split; [reflexivity|]. split; [reflexivity|]. split.
+      { destruct q; cbn in Hc; apply pstr_eqb_eq in Hc; exact Hc. }
+      cbn [objs] in Hi. assert (Hi' : incl (flat_map (fun x => objs D x) l) U) by (intros y Hy; apply Hi; right; exact Hy).
+      clear Hi. rewrite forallb_forall in Hall. induction l as [|x l IHl]; [exact I|]. inversion IH as [|? ? Hx Hr]; subst. split.
+      + apply Hx; [apply Hall; left; reflexivity|]. apply (incl_flat (fun x => objs D x) (x :: l) x (or_introl eq_refl) Hi').
+      + apply IHl; [exact Hr|intros y Hy; apply Hall; right; exact Hy|]. intros y Hy. apply Hi'. cbn [flat_map]. apply in_or_app. right. exact Hy.
+    - intros id mo c l IH Hf Hi. cbn [fragb] in Hf. apply andb_prop in Hf. destruct Hf as [Hf Hall]. apply andb_prop in Hf. destruct Hf as [Hc Hit].
+      cbn [vok]. split; [unfold Objs; apply Hi; cbn [objs]; left; reflexivity|]. cbn [objs] in Hi. split.
+      { unfold dict_clsb in Hc. apply orb_prop in Hc. destruct Hc as [Hc|Hc]; apply andb_prop in Hc; destruct Hc as [H1 H2];
+          apply pstr_eqb_eq in H1, H2; subst; [left|right]; split; reflexivity. }
+      split. { apply itemsb_ok; [exact Hit|]. intros y Hy. apply Hi. right. apply in_or_app. left. exact Hy. }
+      assert (Hi' : incl (flat_map (fun kv => objs D (snd kv)) l) U) by (intros y Hy; apply Hi; right; apply in_or_app; right; exact Hy).
+      clear Hi Hit. rewrite forallb_forall in Hall. induction l as [|x l IHl]; [exact I|]. inversion IH as [|? ? Hx Hr]; subst. split.
+      + apply Hx; [apply Hall; left; reflexivity|]. apply (incl_flat (fun kv => objs D (snd kv)) (x :: l) x (or_introl eq_refl) Hi').
+      + apply IHl; [exact Hr|intros y Hy; apply Hall; right; exact Hy|]. intros y Hy. apply Hi'. cbn [flat_map]. apply in_or_app. right. exact Hy.
+    - intros id mo c f l IHf IH Hf Hi. cbn [fragb] in Hf. apply andb_prop in Hf. destruct Hf as [Hf Hall]. apply andb_prop in Hf. destruct Hf as [Hf Hff].
+      apply andb_prop in Hf. destruct Hf as [Hf Hit]. apply andb_prop in Hf. destruct Hf as [Hmo Hc]. apply pstr_eqb_eq in Hmo, Hc. subst.
+      cbn [vok]. split; [unfold Objs; apply Hi; cbn [objs]; left; reflexivity|]. cbn [objs] in Hi. split; [reflexivity|]. split; [reflexivity|].
+      split. { apply itemsb_ok; [exact Hit|]. intros y Hy. apply Hi. right. apply in_or_app. left. exact Hy. }
+      split. { apply IHf; [exact Hff|]. intros y Hy. apply Hi. right. apply in_or_app. right. apply in_or_app. left. exact Hy. }
+      assert (Hi' : incl (flat_map (fun kv => objs D (snd kv)) l) U)
+        by (intros y Hy; apply Hi; right; apply in_or_app; right; apply in_or_app; right; exact Hy).
+      clear Hi Hit. rewrite forallb_forall in Hall. induction l as [|x l IHl]; [exact I|]. inversion IH as [|? ? Hx Hr]; subst. split.
+      + apply Hx; [apply Hall; left; reflexivity|]. apply (incl_flat (fun kv => objs D (snd kv)) (x :: l) x (or_introl eq_refl) Hi').
+      + apply IHl; [exact Hr|intros y Hy; apply Hall; right; exact Hy|]. intros y Hy. apply Hi'. cbn [flat_map]. apply in_or_app. right. exact Hy.
     - intros; discriminate.
     - intros; discriminate.
     - intros; discriminate.
     - intros; discriminate.
     - intros; discriminate.
-    - intros; discriminate.
-    - intros; discriminate.
-    - intros; discriminate.
+    - intros id c a IHa Hf Hi. cbn [fragb] in Hf. apply andb_prop in Hf. destruct Hf as [Hf Hfa]. apply andb_prop in Hf. destruct Hf as [Hr Hok].
+      cbn [vok]. split; [unfold Objs; apply Hi; cbn [objs]; left; reflexivity|]. split; [exact Hr|]. split.
+      + unfold opfunc_okb in Hok. unfold opfunc_attrs_ok. destruct a; try discriminate Hok. destruct items as [|x items]; [discriminate Hok|].
+        destruct x; try (apply pstr_eqb_eq in Hok; exact Hok). destruct sc; try (apply pstr_eqb_eq in Hok; exact Hok). exact I.
+      + apply IHa; [exact Hfa|]. intros y Hy. apply Hi. cbn [objs]. right. exact Hy.
     - intros; discriminate.
     - intros; discriminate.
   Qed.
-End RT.
+End Pack.
+
+Lemma objs_wf_fun base U : objs_wf base U = true ->
+  (forall a b, In a U -> In b U -> pid a = pid b -> a = b) /\ (forall a, In a U -> (0 < pid a < base)%Z).
+Proof.
+  unfold objs_wf. rewrite forallb_forall. intros H. split.
+  - intros a b Ha Hb Hp. specialize (H a Ha). apply andb_prop in H. destruct H as [_ H]. rewrite forallb_forall in H.
+    specialize (H b Hb). rewrite Hp, Z.eqb_refl in H. cbn in H. apply pval_eqb_true. exact H.
+  - intros a Ha. specialize (H a Ha). apply andb_prop in H. destruct H as [H _]. apply andb_prop in H. destruct H as [H1 H2]. lia.
+Qed.
 
 (* loads() below the root: get_tree + construct on a state, the protocol being given *)
 Definition load_state (C : cenv) (files : list (hkey * json)) (proto : json) (j : json) : res pval :=
-  do (t, _) <- get_tree default_fuel (c_env C) proto [] (SOne (s "root")) [] j;
-  construct_val C files t construct_fuel [] t.
+  do (t, _) <- get_tree default_fuel (c_env C) proto [] (SOne (GetTree.K "root")) [] j;
+  construct_val C files t construct_fuel t.
 
-(* one dump/load cycle on states *)
+Definition c05_guard (F : cfacts) (D : denv) (base : Z) (v : pval) : bool :=
+  fragb F D v && objs_wf base (objs D v) && Nat.leb (need v) default_fuel.
+
+Theorem share_roundtrip D F C files base v j st :
+  c_namedtuples C = f_namedtuples F /\ c_missing C = f_missing F ->
+  facts_sane F = true -> reg_ok (e_reg (c_env C)) (e_cur (c_env C)) = true ->
+  c05_guard F D base v = true ->
+  get_state D v (init_dst base) = Ok (j, st) ->
+  d_late st = None /\ load_state C files (JInt (e_cur (c_env C))) j = Ok v.
+Proof.
+  intros HC Hs Hr Hg Hst. unfold c05_guard in Hg. apply andb_prop in Hg. destruct Hg as [Hg Hn]. apply andb_prop in Hg. destruct Hg as [Hf Hw].
+  apply Nat.leb_le in Hn. destruct (objs_wf_fun _ _ Hw) as [Ofun Oid].
+  pose proof (fragb_vok D F (objs D v) v Hf (fun y Hy => Hy)) as Hv.
+  destruct (vok_Q D F (c_env C) C files base (fun w => In w (objs D v)) Oid Hr HC Hs v Hv _ _ _ Hst ltac:(cbn; lia)) as [Hl [_ HQ]].
+  split; [exact Hl|].
+  destruct (HQ default_fuel [] (SOne (GetTree.K "root")) Hn) as [R [m' [Ht _]]]; [intros h Hh; discriminate Hh|].
+  unfold load_state. rewrite Ht. cbn [bind].
+  apply (root_construct D F (c_env C) C files base (fun w => In w (objs D v)) Ofun Oid Hr HC Hs v _ _ _ default_fuel R m' Hv Hst ltac:(cbn; lia) Hn Ht).
+  unfold construct_fuel, default_fuel in *. lia.
+Qed.
+
+(* one dump/load cycle on states, and k of them *)
 Definition cycle_state (D : denv) (C : cenv) (files : list (hkey * json)) (base : Z) (v : pval) : res pval :=
   do (j, _) <- get_state D v (init_dst base);
   load_state C files (JInt (e_cur (c_env C))) j.
-
-Fixpoint nodupZ (l : list Z) : bool :=
-  match l with [] => true | x :: l' => negb (existsb (Z.eqb x) l') && nodupZ l' end.
-Lemma nodupZ_NoDup l : nodupZ l = true -> NoDup l.
-Proof.
-  induction l as [|x l IH]; cbn [nodupZ]; intros H; [constructor|]. apply andb_prop in H. destruct H as [H1 H2].
-  constructor; [|auto]. intro Hin. apply negb_true_iff in H1.
-  assert (existsb (Z.eqb x) l = true) by (apply existsb_exists; exists x; split; [assumption|apply Z.eqb_refl]). congruence.
-Qed.
-
-(* the ids the dump writes are pairwise distinct and non-zero: a tree-shaped value *)
-Definition ids_tree (D : denv) (base : Z) (v : pval) : bool :=
-  match get_state D v (init_dst base) with
-  | Ok (j, _) => nodupZ (jids j) && forallb (fun i => negb (Z.eqb i 0)) (jids j)
-  | Raise _ => false
-  end.
-
-Theorem frag_roundtrip D F C files base v :
-  c_namedtuples C = f_namedtuples F /\ c_missing C = f_missing F ->
-  facts_sane F = true -> reg_ok (e_reg (c_env C)) (e_cur (c_env C)) = true ->
-  frag F v = true -> ids_tree D base v = true -> (need v <= default_fuel)%nat ->
-  cycle_state D C files base v = Ok v.
-Proof.
-  intros HC Hs Hr Hf Hids Hneed. unfold cycle_state, ids_tree in *.
-  destruct (get_state D v (init_dst base)) as [[j st]|] eqn:E0; [|discriminate]. cbn [bind].
-  apply andb_prop in Hids. destruct Hids as [Hnd Hnz]. apply nodupZ_NoDup in Hnd. rewrite forallb_forall in Hnz.
-  destruct (frag_rt D F (c_env C) C files HC Hs Hr v Hf _ _ _ E0) as [_ H].
-  destruct (H default_fuel [] (SOne (s "root")) Hneed Hnd) as [n [m' [Hg [_ [_ Hc]]]]].
-  { intros i Hi. split; [|reflexivity]. specialize (Hnz i Hi). apply negb_true_iff in Hnz. apply Z.eqb_neq. exact Hnz. }
-  unfold load_state. rewrite Hg. cbn [bind]. apply Hc; [unfold construct_fuel, default_fuel in *; lia|]. intros; reflexivity.
-Qed.
-
-(* k cycles *)
 Fixpoint cycles (D : denv) (C : cenv) (files : list (hkey * json)) (base : Z) (k : nat) (v : pval) : res pval :=
   match k with
   | O => Ok v
   | S k' => do v' <- cycle_state D C files base v; cycles D C files base k' v'
   end.
 
-Theorem frag_stable D F C files base v :
+Theorem share_cycle D F C files base v :
   c_namedtuples C = f_namedtuples F /\ c_missing C = f_missing F ->
   facts_sane F = true -> reg_ok (e_reg (c_env C)) (e_cur (c_env C)) = true ->
-  frag F v = true -> ids_tree D base v = true -> (need v <= default_fuel)%nat ->
-  forall k, cycles D C files base k v = Ok v.
+  c05_guard F D base v = true ->
+  forall j st, get_state D v (init_dst base) = Ok (j, st) -> cycle_state D C files base v = Ok v.
 Proof.
-  intros HC Hs Hr Hf Hids Hneed k. induction k as [|k IH]; [reflexivity|].
-  cbn [cycles]. rewrite (frag_roundtrip D F C files base v HC Hs Hr Hf Hids Hneed). cbn [bind]. exact IH.
+  intros HC Hs Hr Hg j st Hst. unfold cycle_state. rewrite Hst. cbn [bind].
+  exact (proj2 (share_roundtrip D F C files base v j st HC Hs Hr Hg Hst)).
+Qed.
+
+Theorem share_stable D F C files base v :
+  c_namedtuples C = f_namedtuples F /\ c_missing C = f_missing F ->
+  facts_sane F = true -> reg_ok (e_reg (c_env C)) (e_cur (c_env C)) = true ->
+  c05_guard F D base v = true ->
+  forall j st, get_state D v (init_dst base) = Ok (j, st) -> forall k, cycles D C files base k v = Ok v.
+Proof.
+  intros HC Hs Hr Hg j st Hst k. induction k as [|k IH]; [reflexivity|].
+  cbn [cycles]. rewrite (share_cycle D F C files base v HC Hs Hr Hg j st Hst). cbn [bind]. exact IH.
 Qed.
